@@ -10,6 +10,7 @@ import (
 	"time"
 
 	"github.com/krotik/ecal/engine/pool"
+	"github.com/krotik/ecal/verifhook"
 
 	"verif/harness/core"
 	"verif/harness/sched"
@@ -36,6 +37,42 @@ type scen struct {
 func newScen(tr *sched.Tracer, max int) *scen {
 	return &scen{tr: tr, tp: pool.NewThreadPool(), started: make([]int32, max), ended: make([]int32, max),
 		addRet: make([]int64, max), beginAt: make([]int64, max), endAt: make([]int64, max), block: map[int]chan struct{}{}}
+}
+
+// sizeHookQueue is the pool's default queue with one observation point more:
+// the Size() call of the idle task, which lies between the idle task's look
+// at the pending kill requests and its wait (inside the condition's lock and
+// the queue lock - used as a gate only with the forced release of runGate).
+type sizeHookQueue struct {
+	pool.DefaultTaskQueue
+	tp *pool.ThreadPool
+}
+
+func (q *sizeHookQueue) Size() int {
+	var pcs [4]uintptr
+	n := runtime.Callers(2, pcs[:])
+	fr := runtime.CallersFrames(pcs[:n])
+	for {
+		f, more := fr.Next()
+		if len(f.Function) > 15 && f.Function[len(f.Function)-15:] == "(*idleTask).Run" {
+			verifhook.At(idleSizePoint, q.tp)
+			break
+		}
+		if !more {
+			break
+		}
+	}
+	return q.DefaultTaskQueue.Size()
+}
+
+const idleSizePoint = "poolq.idle.size"
+
+func newScenSizeHook(tr *sched.Tracer, max int) *scen {
+	s := newScen(tr, max)
+	q := &sizeHookQueue{}
+	s.tp = pool.NewThreadPoolWithQueue(q)
+	q.tp = s.tp
+	return s
 }
 
 type task struct {
@@ -244,6 +281,19 @@ func gateCases() []gateCase {
 			}
 		}
 	}
+	// the idle task held between its look at the kill requests and its wait
+	// (inside its locks): a correct pool makes the partner wait for the lock
+	// (pair infeasible, forced release)
+	for _, tpl := range []string{"resize-zero", "resize-down-noadd", "submit"} {
+		for _, u := range []string{"pool.broadcast", "pool.add.signalled", "h.call.returned"} {
+			for _, w := range []int{1, 2, 3} {
+				if (w == 1 && tpl == "resize-down-noadd") || (tpl == "submit") != (u == "pool.add.signalled") {
+					continue
+				}
+				r = append(r, gateCase{tpl, idleSizePoint, u, w})
+			}
+		}
+	}
 	return r
 }
 
@@ -251,6 +301,9 @@ func runGate(c *core.Ctx, idx int, gc gateCase) {
 	stream := "gate"
 	tr := sched.NewTracer()
 	s := newScen(tr, 64)
+	if gc.hold == idleSizePoint {
+		s = newScenSizeHook(tr, 64)
+	}
 	tr.Filter = func(p string, a []interface{}) bool { return len(a) > 0 && a[0] == s.tp }
 	tr.Install() // after Filter is set: stragglers of an earlier scenario may call in at any time
 	defer sched.Uninstall()
@@ -262,8 +315,15 @@ func runGate(c *core.Ctx, idx int, gc gateCase) {
 	// when the gate is armed
 	g := sched.NewGate(gc.hold, gc.until)
 	armed := make(chan struct{})
-	first := s.addTask(&task{onRun: func(int) { tr.AddGate(g); close(armed) }})
-	_ = first
+	warm := &task{onRun: func(int) { tr.AddGate(g); close(armed) }}
+	if gc.hold == idleSizePoint {
+		// the hold point lies inside the condition's lock: the signalling half
+		// of this very AddTask can find the lock taken by the held worker, so
+		// the call must not run on the goroutine that opens the gate by force
+		go s.addTask(warm)
+	} else {
+		s.addTask(warm)
+	}
 	<-armed
 	// wait until the gate holds a worker, or the workers are all parked (the
 	// hold point was not passed: infeasible for this template)
@@ -300,6 +360,9 @@ func runGate(c *core.Ctx, idx int, gc gateCase) {
 		case "resize-down":
 			final = gc.workers - 1
 			s.add(0, 0)
+			s.tp.SetWorkerCount(final, false)
+		case "resize-down-noadd":
+			final = gc.workers - 1
 			s.tp.SetWorkerCount(final, false)
 		case "resize-zero":
 			// no task is owed afterwards, but the count has to converge to 0
@@ -389,9 +452,9 @@ func runGate(c *core.Ctx, idx int, gc gateCase) {
 	// worker-count convergence (only meaningful when nothing is stuck already)
 	if res == "done" {
 		switch gc.template {
-		case "resize-down", "resize-down-wait", "joinall", "resize-zero":
+		case "resize-down", "resize-down-wait", "joinall", "resize-zero", "resize-down-noadd":
 			r2, v2 := s.awaitOrStuck(func() bool { return s.tp.WorkerCount() == final }, 3000)
-			if gc.template != "resize-down" && gc.template != "resize-zero" && s.tp.WorkerCount() != final {
+			if gc.template != "resize-down" && gc.template != "resize-zero" && gc.template != "resize-down-noadd" && s.tp.WorkerCount() != final {
 				c.Violation("count-after-return:"+gc.template, fmt.Sprintf("%s returned with %d workers, requested %d", gc.template, s.tp.WorkerCount(), final), stream, idx, detail)
 			} else if r2 == "stuck" {
 				detail["live_workers"] = len(v2.LiveWorkers)
@@ -849,7 +912,7 @@ func runClear(c *core.Ctx, idx int) {
 
 // Run is the check.
 func Run(c *core.Ctx) {
-	c.Note("rule", "directed gates: 7 templates (submit, burst, resize down (wait/no wait), JoinAll, WaitAll, resize to zero) x 5 worker hold points x 3 partner points x {1,2,3} workers, each holding one worker at the hold point until the partner call passed its point (infeasible pairs are released and counted); clear: DefaultTaskQueue.Clear called while every worker is blocked inside a task, in the middle of a history of pops (tasks added afterwards are owed, cleared ones must not run); dep: rounds of task pairs where the first waits inside Run for the start of the second (2..6 workers) decided by a stuck predicate that accepts workers blocked inside waiting tasks; noise: seeded random scenarios (1..16 workers, bursts, single submissions separated by idle periods with no pool call, concurrent submitters, WaitAll, resizes with/without wait, tasks that sleep or submit children) with random yields/sleeps at lock-free hook points; monitors: exactly-once table per task id, stuck-state predicate over the hook trace + scheduler state (Cond.Wait) for lost wake-ups and non-converging worker counts, stamp order for WaitAll/JoinAll/SetWorkerCount returns; non-trivial/distinct = distinct interleaving signatures (hash of the (goroutine role, hook point) sequence) plus feasible gate cases")
+	c.Note("rule", "directed gates: 7 templates (submit, burst, resize down (wait/no wait), JoinAll, WaitAll, resize to zero) x 5 worker hold points x 3 partner points x {1,2,3} workers, plus the idle task held inside its locks between its look at the kill requests and its wait (observed through the Size() call of a wrapped default queue) against resize / submit, each holding one worker at the hold point until the partner call passed its point (infeasible pairs are released and counted); clear: DefaultTaskQueue.Clear called while every worker is blocked inside a task, in the middle of a history of pops (tasks added afterwards are owed, cleared ones must not run); dep: rounds of task pairs where the first waits inside Run for the start of the second (2..6 workers) decided by a stuck predicate that accepts workers blocked inside waiting tasks; noise: seeded random scenarios (1..16 workers, bursts, single submissions separated by idle periods with no pool call, concurrent submitters, WaitAll, resizes with/without wait, tasks that sleep or submit children) with random yields/sleeps at lock-free hook points; monitors: exactly-once table per task id, stuck-state predicate over the hook trace + scheduler state (Cond.Wait) for lost wake-ups and non-converging worker counts, stamp order for WaitAll/JoinAll/SetWorkerCount returns; non-trivial/distinct = distinct interleaving signatures (hash of the (goroutine role, hook point) sequence) plus feasible gate cases")
 	gcs := gateCases()
 	for i, gc := range gcs {
 		if !c.Take("gate", i) {
